@@ -44,6 +44,24 @@ pub fn neqo<U: User, E: Engine<U>, G: AnyGoal<U, E>>(a: LTerm<U, E>, b: LTerm<U,
     proto_vulcan!(a != b)
 }
 
+/// cello(a, b): for a fresh w, a == [1 | w] or b == [2 | w]
+pub fn cello<U: User, E: Engine<U>, G: AnyGoal<U, E>>(a: LTerm<U, E>, b: LTerm<U, E>) -> InferredGoal<U, E, G> {
+    proto_vulcan_closure!(|w| {
+        conde {
+            a == [1 | w],
+            b == [2 | w],
+        }
+    })
+}
+
+/// twiceo(a, b): cello(a, b) twice — written by posting ONE goal value twice (a goal is a value:
+/// every time it is solved its fresh variables are new)
+pub fn twiceo<U: User, E: Engine<U>, G: AnyGoal<U, E>>(a: LTerm<U, E>, b: LTerm<U, E>) -> InferredGoal<U, E, G> {
+    let g: InferredGoal<U, E, G> = cello::<U, E, G>(a, b);
+    let g2 = g.clone();
+    proto_vulcan!([g, g2])
+}
+
 pub fn call<U: User, E: Engine<U>, G: AnyGoal<U, E>>(name: &str, a: Vec<LTerm<U, E>>) -> G {
     use proto_vulcan::GoalCast;
     match name {
@@ -52,6 +70,8 @@ pub fn call<U: User, E: Engine<U>, G: AnyGoal<U, E>>(name: &str, a: Vec<LTerm<U,
         "lasto" => lasto::<U, E, G>(a[0].clone(), a[1].clone()).cast_into(),
         "zipo" => zipo::<U, E, G>(a[0].clone(), a[1].clone()).cast_into(),
         "neqo" => neqo::<U, E, G>(a[0].clone(), a[1].clone()).cast_into(),
+        "cello" => cello::<U, E, G>(a[0].clone(), a[1].clone()).cast_into(),
+        "twiceo" => twiceo::<U, E, G>(a[0].clone(), a[1].clone()).cast_into(),
         other => panic!("unknown user relation {}", other),
     }
 }
